@@ -105,7 +105,7 @@ def ns_available():
         return False
 
 
-def run_ns(stage, uid, user=None, euid=None, by_name=False, no_out=False, xdg_runtime=None):
+def run_ns(stage, uid, user=None, euid=None, by_name=False, no_out=False, xdg_runtime=None, unit_dirs=None):
     """run the real binary in a private mount namespace with the staged trees at the real paths; returns the set of ORIGIN markers"""
     out = os.path.join(stage, 'out')
     if user is None:
@@ -121,6 +121,8 @@ def run_ns(stage, uid, user=None, euid=None, by_name=False, no_out=False, xdg_ru
              # (what decides the mode is the command line; variables systemd sets for its generators — SYSTEMD_SCOPE — must not turn a user
              # generator into a system one)
              f'env -u QUADLET_UNIT_DIRS ' + ('-u XDG_RUNTIME_DIR ' if xdg_runtime == 'unset' else '') + f'HOME={stage}/home XDG_CONFIG_HOME={stage}/home/.config '
+             # (the variable that replaces the search path, set but empty or holding only separators: whatever that means, it opens no directory that is closed otherwise)
+             + (f"QUADLET_UNIT_DIRS='{unit_dirs}' " if unit_dirs is not None else '')
              # (a user generator started by hand, from cron or in a container has no usable XDG_RUNTIME_DIR: unset, empty, or not absolute)
              + {None: f'XDG_RUNTIME_DIR={stage}/xdgrun ', 'unset': '', 'empty': 'XDG_RUNTIME_DIR= ', 'relative': 'XDG_RUNTIME_DIR=run/containers '}[xdg_runtime]
              + ((f'SYSTEMD_SCOPE={"system" if sum(map(ord, stage)) % 3 else "user"} ' if user and sum(map(ord, stage)) % 2 else ''))
@@ -217,9 +219,10 @@ def oracle(ctx):
         other = rnd.choice([u for u in (1001, 2002, 7, 1000) if u != uid])
         no_out = rnd.random() < 0.6
         how = rnd.choice(['unset', 'empty', 'relative'])
+        ud = rnd.choice(['', ':', '::'])
         return (uid, run_ns(stage, 0, False), run_ns(stage, uid, True), run_ns(stage, 0, True), (other, run_ns(stage, uid, True, euid=other)),
-                (no_out, run_ns(stage, uid, True, by_name=True, no_out=no_out)), (how, run_ns(stage, uid, True, xdg_runtime=how)))
-    for (stage, tree, marks), (uid, r0, ru, ru0, (other, rue), (no_out, run_name), (how, run_noxdg)) in zip(cases, e2e.pmap(run, cases, workers=8)):
+                (no_out, run_ns(stage, uid, True, by_name=True, no_out=no_out)), (how, run_ns(stage, uid, True, xdg_runtime=how)), (ud, run_ns(stage, 0, False, unit_dirs=ud), run_ns(stage, uid, True, unit_dirs=ud)))
+    for (stage, tree, marks), (uid, r0, ru, ru0, (other, rue), (no_out, run_name), (how, run_noxdg), (ud, r0e, rue_)) in zip(cases, e2e.pmap(run, cases, workers=8)):
         res.oracle_evals += 1
         fails = []
         want_root = {t for t, (lab, d) in marks.items() if lab in ('distro', 'run') or (lab == 'adm' and not (d == 'users' or d.startswith('users/')))}
@@ -241,6 +244,10 @@ def oracle(ctx):
             fails.append(f'the user generator invoked by uid {uid} with effective uid {other} (exit {rue[0]}) read {sorted(rue[1])}, permitted and expected {sorted(want_user)} {rue[2][-200:]}')
         if run_name[0] not in (0, 1) or run_name[1] != want_user:
             fails.append(f'the generator started as podman-user-generator by uid {uid} (--dry-run, {"no output directory" if no_out else "with output directory"}; exit {run_name[0]}) read {sorted(run_name[1])}, permitted and expected {sorted(want_user)} {run_name[2][-200:]}')
+        if r0e[0] not in (0, 1) or not r0e[1] <= want_root:
+            fails.append(f'the system generator with QUADLET_UNIT_DIRS={ud!r} (exit {r0e[0]}) read {sorted(r0e[1] - want_root)} which it must never read')
+        if rue_[0] not in (0, 1) or not rue_[1] <= want_user:
+            fails.append(f'the user generator of uid {uid} with QUADLET_UNIT_DIRS={ud!r} (exit {rue_[0]}) read {sorted(rue_[1] - want_user)} which it must never read')
         # without a usable XDG_RUNTIME_DIR the user has no runtime directory of its own — the system's /run/containers/systemd is not a stand-in
         want_noxdg = {t for t in want_user if marks[t][0] != 'xdgrun'}
         if run_noxdg[0] not in (0, 1) or run_noxdg[1] != want_noxdg:
